@@ -908,6 +908,11 @@ def run_case(ctx):
         pre = rng.choice([[], [], [], [("dagger",)], [("power_int", 2)], [("power_int", -1)]])
         posts = [("dagger",), ("controlled", 1), ("power_int", 2), ("power_int", 3), ("power_int", -1), ("power_int", -2),
                  ("power_frac", 1 / 2), ("power_frac", 1 / 3)]
+        if a not in NO_EXP and b not in NO_EXP:
+            # exp ABOVE a name-hiding wrapper as well (X.controlled(1).exp then Z.controlled(1).exp): the exponential
+            # of a "Control" must still know which gate is controlled (seeded C07-1 / C07-18 once slipped through a
+            # rewrite of this class that kept exp only as the inner wrapper)
+            posts += [("exp",), ("exp",), ("exp",)]
         wrappers = pre + [rng.choice(hiders)] + [rng.choice(posts) for _ in range(rng.choice([1, 1, 2]))]
         chain = []
         for m in wrappers:
